@@ -1,4 +1,5 @@
-(* Tab/LifecycleProofs.v — theorems about the life-cycle model, for every operation sequence. *)
+(* Tab/LifecycleProofs.v — theorems about the life-cycle model, for every operation sequence
+   (Step / Finish / Build / SetArgument / SetLogic / BuildTrunk / AddRule / HandBranch). *)
 From Coq Require Import List Bool Arith ZArith Lia.
 From PT Require Import Tab.Lifecycle.
 Import ListNotations.
@@ -23,7 +24,7 @@ Proof. intro F. unfold finish. rewrite F. reflexivity. Qed.
 (* everything but the FINISHED / TIMED_OUT flags is kept by finish *)
 Lemma finish_keeps c b2 s : let s' := fst (finish c b2 s) in
   premature s' = premature s /\ trunk s' = trunk s /\ started s' = started s /\ has_logic s' = has_logic s /\
-  has_arg s' = has_arg s /\ locked s' = locked s /\ added s' = added s /\ open_zero s' = open_zero s /\
+  has_arg s' = has_arg s /\ locked s' = locked s /\ added s' = added s /\ nhand s' = nhand s /\
   hist s' = hist s /\ nrules s' = nrules s /\ (timed_out s = true -> timed_out s' = true).
 Proof.
   unfold finish. destruct (finished s); [simpl; tauto|].
@@ -46,28 +47,66 @@ Proof.
   destruct (c_models c && has_logic (set_finished s) && has_time_limit c && b2); intro H; inversion H; reflexivity.
 Qed.
 
+(* ---- the supply of rule applications ------------------------------------------ *)
+Lemma supply_eq c s s0 : trunk s = trunk s0 -> has_logic s = has_logic s0 -> nhand s = nhand s0 ->
+  supply c s = supply c s0.
+Proof. intros A B C. unfold supply. rewrite A, B, C. reflexivity. Qed.
+
+Lemma supply_le c s : supply c s <= c_n c + c_h c * nhand s.
+Proof. unfold supply. destruct (trunk s); destruct (has_logic s); lia. Qed.
+
 (* ---- invariant ------------------------------------------------------------ *)
 Record Inv (c : cfg) (s : st) : Prop := {
   i_prem : finished s = false -> premature s = true;
-  i_hist : hist s <= c_n c;
+  i_hist : hist s <= supply c s;
   i_lim : forall z, c_max_steps c = Some z -> (0 < z)%Z -> (Z.of_nat (hist s) <= z)%Z;
   i_to : timed_out s = true -> finished s = true;
   i_trunk : trunk s = true -> started s = true /\ has_logic s = true /\ has_arg s = true /\ locked s = true;
-  i_hist0 : 0 < hist s -> trunk s = true;
-  i_started : started s = true -> trunk s = true;
-  i_locked : locked s = true -> trunk s = true }.
+  i_hist0 : 0 < hist s -> started s = true;
+  i_started : started s = true -> has_logic s = true /\ locked s = true;
+  i_hand : 0 < nhand s -> locked s = true }.
 
 Lemma Inv_init c : Inv c init.
 Proof.
-  constructor; simpl; try discriminate; try lia; auto.
+  constructor.
+  - intros _. reflexivity.
+  - unfold supply. simpl. lia.
+  - intros z M P. simpl. lia.
+  - intro H. discriminate H.
+  - intro H. discriminate H.
+  - simpl. intro H. lia.
+  - intro H. discriminate H.
+  - simpl. intro H. lia.
 Qed.
 
-Lemma Inv_finish c b2 s : Inv c s -> Inv c (fst (finish c b2 s)).
+(* an operation that records no step keeps the invariant if it keeps these *)
+Lemma Inv_update c s s' : Inv c s ->
+  (finished s' = false -> premature s' = true) ->
+  hist s' = hist s -> supply c s <= supply c s' ->
+  (timed_out s' = true -> finished s' = true) ->
+  (trunk s' = true -> started s' = true /\ has_logic s' = true /\ has_arg s' = true /\ locked s' = true) ->
+  (started s = true -> started s' = true) ->
+  (started s' = true -> has_logic s' = true /\ locked s' = true) ->
+  (0 < nhand s' -> locked s' = true) -> Inv c s'.
 Proof.
-  intros I. pose proof (finish_keeps c b2 s) as K. pose proof (finish_finished c b2 s) as F.
-  cbv zeta in K. destruct K as (K1 & K2 & K3 & K4 & K5 & K6 & K7 & K8 & K9 & K10 & K11).
-  destruct I. constructor; rewrite ?K1, ?K2, ?K3, ?K4, ?K5, ?K6, ?K7, ?K8, ?K9, ?K10; auto.
-  rewrite F. discriminate.
+  intros I P H S T Tr Mono St Hd. destruct I as [ip ih il it itr ih0 ist ihd].
+  constructor.
+  - exact P.
+  - rewrite H. lia.
+  - intros z M Pz. rewrite H. exact (il z M Pz).
+  - exact T.
+  - exact Tr.
+  - intro Q. rewrite H in Q. apply Mono, ih0, Q.
+  - exact St.
+  - exact Hd.
+Qed.
+
+Lemma supply_pos c s : Inv c s -> 0 < supply c s -> has_logic s = true /\ locked s = true.
+Proof.
+  intros I H. unfold supply in H. destruct (trunk s) eqn:T.
+  - destruct (i_trunk _ _ I T) as (_ & L & _ & K). split; assumption.
+  - destruct (has_logic s) eqn:L; [|simpl in H; lia]. split; [reflexivity|].
+    apply (i_hand _ _ I). destruct (nhand s) as [|m]; [rewrite Nat.mul_0_r in H; simpl in H; lia|lia].
 Qed.
 
 Lemma exceeded_false_lim c s z : exceeded c s = false -> c_max_steps c = Some z -> (0 < z)%Z ->
@@ -80,16 +119,47 @@ Qed.
 
 Definition same_core (s s0 : st) : Prop :=
   trunk s = trunk s0 /\ started s = started s0 /\ has_logic s = has_logic s0 /\ has_arg s = has_arg s0 /\
-  locked s = locked s0 /\ added s = added s0 /\ hist s = hist s0 /\ nrules s = nrules s0.
+  locked s = locked s0 /\ added s = added s0 /\ nhand s = nhand s0 /\ hist s = hist s0 /\ nrules s = nrules s0.
+
+Lemma same_core_refl s : same_core s s.
+Proof. unfold same_core. repeat split. Qed.
 
 (* finish re-establishes the invariant whatever PREMATURE / TIMED_OUT were *)
 Lemma Inv_finish_gen c b2 s s0 : Inv c s0 -> same_core s s0 -> Inv c (fst (finish c b2 s)).
 Proof.
-  intros I (C1 & C2 & C3 & C4 & C5 & C6 & C7 & C8).
+  intros I (C1 & C2 & C3 & C4 & C5 & C6 & C7 & C8 & C9).
   pose proof (finish_keeps c b2 s) as K. pose proof (finish_finished c b2 s) as F.
   cbv zeta in K. destruct K as (K1 & K2 & K3 & K4 & K5 & K6 & K7 & K8 & K9 & K10 & K11).
-  destruct I. constructor; rewrite ?K2, ?K3, ?K4, ?K5, ?K6, ?K7, ?K9, ?K10, ?C1, ?C2, ?C3, ?C4, ?C5, ?C6, ?C7, ?C8; auto.
-  rewrite F. discriminate.
+  apply (Inv_update c s0); [exact I| | | | | | | |].
+  - intro Q. rewrite F in Q. discriminate Q.
+  - rewrite K9. exact C8.
+  - apply Nat.eq_le_incl. symmetry. apply supply_eq; congruence.
+  - intros _. exact F.
+  - rewrite K2, K3, K4, K5, K6, C1, C2, C3, C4, C5. apply (i_trunk _ _ I).
+  - rewrite K3, C2. intro Q. exact Q.
+  - rewrite K3, K4, K6, C2, C3, C5. apply (i_started _ _ I).
+  - rewrite K8, K6, C7, C5. apply (i_hand _ _ I).
+Qed.
+
+Lemma Inv_finish c b2 s : Inv c s -> Inv c (fst (finish c b2 s)).
+Proof. intro I. apply Inv_finish_gen with (s0 := s); [exact I|apply same_core_refl]. Qed.
+
+Lemma Inv_apply_rule c s : Inv c s -> exceeded c s = false -> available c s = true -> Inv c (apply_rule s).
+Proof.
+  intros I X A. unfold available in A. apply Nat.ltb_lt in A.
+  assert (Pos : 0 < supply c s) by lia.
+  destruct (supply_pos c s I Pos) as [HL LK].
+  destruct I as [ip ih il it itr ih0 ist ihd].
+  constructor.
+  - exact ip.
+  - change (S (hist s) <= supply c s). lia.
+  - intros z M P. change (Z.of_nat (S (hist s)) <= z)%Z. pose proof (exceeded_false_lim c s z X M P). lia.
+  - exact it.
+  - intro T. change (trunk s = true) in T. destruct (itr T) as (_ & H2 & H3 & H4).
+    change (true = true /\ has_logic s = true /\ has_arg s = true /\ locked s = true). auto.
+  - intros _. reflexivity.
+  - intros _. change (has_logic s = true /\ locked s = true). auto.
+  - exact ihd.
 Qed.
 
 Lemma Inv_step c b b2 s : Inv c s -> Inv c (fst (step c b b2 s)).
@@ -99,10 +169,7 @@ Proof.
   - apply Inv_finish_gen with (s0 := s); [exact I|]. unfold same_core; simpl; tauto.
   - destruct (negb (exceeded c s)) eqn:X.
     + destruct (available c s) eqn:A.
-      * apply negb_true_iff in X. unfold available in A. apply andb_true_iff in A. destruct A as [A1 A2].
-        apply Nat.ltb_lt in A2. destruct I. simpl. constructor; simpl; auto.
-        -- intros z M P. pose proof (exceeded_false_lim c s z X M P). lia.
-        -- intros _. destruct (i_trunk0 A1) as (_ & H2 & H3 & H4). auto.
+      * apply negb_true_iff in X. cbn [fst]. apply Inv_apply_rule; assumption.
       * destruct (finish c b2 (clear_premature s)) as [s2 t] eqn:Q.
         change s2 with (fst (s2, t)). rewrite <- Q. apply Inv_finish_gen with (s0 := s); [exact I|].
         unfold same_core; simpl; tauto.
@@ -131,40 +198,96 @@ Proof.
   destruct (negb (has_arg s)) eqn:A; [exact I|].
   destruct (negb (has_logic s)) eqn:L; [exact I|].
   destruct (refuses c s) eqn:S; [exact I|].
-  apply negb_false_iff in A, L. destruct I. constructor; simpl; auto.
+  apply negb_false_iff in A, L. cbn [fst].
+  apply (Inv_update c s); [exact I| | | | | | | |].
+  - exact (i_prem _ _ I).
+  - reflexivity.
+  - change (supply c (do_trunk s)) with (c_n c + (if has_logic s then c_h c * nhand s else 0)).
+    unfold supply. rewrite T. lia.
+  - exact (i_to _ _ I).
+  - intros _. change (true = true /\ has_logic s = true /\ has_arg s = true /\ true = true). auto.
+  - intros _. reflexivity.
+  - intros _. change (has_logic s = true /\ true = true). auto.
+  - intros _. reflexivity.
 Qed.
 
 Lemma Inv_set_argument c s : Inv c s -> Inv c (fst (set_argument c s)).
 Proof.
   intro I. unfold set_argument. destruct (refuses c s) eqn:R; [exact I|]. pose proof (refuses_false c s R) as S.
-  match goal with |- context [if ?b then _ else _] => destruct b end.
-  - apply Inv_build_trunk. destruct I. constructor; simpl; auto.
-    all: intro T; try discriminate; destruct (i_trunk0 T) as (H1 & _); congruence.
-  - destruct I. constructor; simpl; auto.
-    all: intro T; try discriminate; destruct (i_trunk0 T) as (H1 & _); congruence.
+  cbv zeta.
+  match goal with |- context [build_trunk c ?x] => set (s1 := x) end.
+  assert (I1 : Inv c s1).
+  { apply (Inv_update c s); [exact I| | | | | | | |].
+    - exact (i_prem _ _ I).
+    - reflexivity.
+    - change (supply c s <= supply c s). lia.
+    - exact (i_to _ _ I).
+    - intro T. change (trunk s = true) in T. destruct (i_trunk _ _ I T) as (H1 & _). congruence.
+    - intro Q. exact Q.
+    - intro Q. exact (i_started _ _ I Q).
+    - exact (i_hand _ _ I). }
+  destruct (has_logic s1 && c_auto c); [apply Inv_build_trunk; exact I1|exact I1].
 Qed.
 
 Lemma Inv_set_logic c s : Inv c s -> Inv c (fst (set_logic c s)).
 Proof.
   intro I. unfold set_logic. destruct (refuses c s) eqn:R; [exact I|]. pose proof (refuses_false c s R) as S.
   destruct (locked s) eqn:L; [exact I|].
-  match goal with |- context [if ?b then _ else _] => destruct b end.
-  - apply Inv_build_trunk. destruct I. constructor; simpl; auto.
-    all: intro T; try discriminate; destruct (i_trunk0 T) as (H1 & _); congruence.
-  - destruct I. constructor; simpl; auto.
-    all: intro T; try discriminate; destruct (i_trunk0 T) as (H1 & _); congruence.
+  cbv zeta.
+  match goal with |- context [build_trunk c ?x] => set (s1 := x) end.
+  assert (I1 : Inv c s1).
+  { apply (Inv_update c s); [exact I| | | | | | | |].
+    - exact (i_prem _ _ I).
+    - reflexivity.
+    - change (supply c s1) with ((if trunk s then c_n c else 0) + c_h c * nhand s).
+      unfold supply. destruct (has_logic s); lia.
+    - exact (i_to _ _ I).
+    - intro T. change (trunk s = true) in T. destruct (i_trunk _ _ I T) as (_ & _ & _ & H4). congruence.
+    - intro Q. exact Q.
+    - intro Q. change (started s = true) in Q. congruence.
+    - intro Q. change (0 < nhand s) in Q. pose proof (i_hand _ _ I Q) as H. congruence. }
+  destruct (has_arg s1 && c_auto c); [apply Inv_build_trunk; exact I1|exact I1].
 Qed.
 
 Lemma Inv_add_rule c s : Inv c s -> Inv c (fst (add_rule s)).
 Proof.
   intro I. unfold add_rule. destruct (locked s) eqn:L; [exact I|]. destruct (added s); [exact I|].
-  destruct I. constructor; simpl; auto.
-  all: intro T; try discriminate; destruct (i_trunk0 T) as (? & ? & ? & ?); congruence.
+  cbn [fst]. apply (Inv_update c s); [exact I| | | | | | | |].
+  - exact (i_prem _ _ I).
+  - reflexivity.
+  - match goal with |- _ <= supply c ?x => change (supply c x) with (supply c s) end. lia.
+  - exact (i_to _ _ I).
+  - intro T. change (trunk s = true) in T. destruct (i_trunk _ _ I T) as (_ & _ & _ & H4). congruence.
+  - intro Q. exact Q.
+  - intro Q. change (started s = true) in Q. destruct (i_started _ _ I Q) as (_ & H2). congruence.
+  - intro Q. change (0 < nhand s) in Q. pose proof (i_hand _ _ I Q) as H. congruence.
+Qed.
+
+Lemma supply_hand_branch c s : supply c s <= supply c (fst (hand_branch s)).
+Proof.
+  change (supply c (fst (hand_branch s))) with
+    ((if trunk s then c_n c else 0) + (if has_logic s then c_h c * S (nhand s) else 0)).
+  unfold supply. rewrite Nat.mul_succ_r. destruct (has_logic s); lia.
+Qed.
+
+Lemma Inv_hand_branch c s : Inv c s -> Inv c (fst (hand_branch s)).
+Proof.
+  intro I. apply (Inv_update c s); [exact I| | | | | | | |].
+  - exact (i_prem _ _ I).
+  - reflexivity.
+  - apply supply_hand_branch.
+  - exact (i_to _ _ I).
+  - intro T. change (trunk s = true) in T. destruct (i_trunk _ _ I T) as (H1 & H2 & H3 & _).
+    change (started s = true /\ has_logic s = true /\ has_arg s = true /\ true = true). auto.
+  - intro Q. exact Q.
+  - intro Q. change (started s = true) in Q. destruct (i_started _ _ I Q) as (H1 & _).
+    change (has_logic s = true /\ true = true). auto.
+  - intros _. reflexivity.
 Qed.
 
 Lemma Inv_exec c s o : Inv c s -> Inv c (fst (exec c s o)).
 Proof.
-  intro I. destruct o as [b b2|b2|k b2| | | |]; cbn [exec].
+  intro I. destruct o as [b b2|b2|k b2| | | | |]; cbn [exec].
   - apply Inv_step, I.
   - pose proof (Inv_finish c b2 s I) as J. destruct (finish c b2 s) as [s' t]. exact J.
   - apply Inv_build_loop, I.
@@ -172,6 +295,7 @@ Proof.
   - apply Inv_set_logic, I.
   - apply Inv_build_trunk, I.
   - apply Inv_add_rule, I.
+  - apply Inv_hand_branch, I.
 Qed.
 
 Lemma Inv_fold c ops : forall s, Inv c s -> Inv c (fold_left (fun s o => fst (exec c s o)) ops s).
@@ -179,6 +303,27 @@ Proof. induction ops as [|o r IH]; intros s I; simpl; [exact I|]. apply IH, Inv_
 
 Lemma Inv_run c ops : Inv c (run c ops).
 Proof. apply Inv_fold, Inv_init. Qed.
+
+(* In every reachable state STARTED implies a locked rule set, so the logic setter's own test of
+   Flag.STARTED is redundant: rules.clear() raises the same IllegalStateError first.  (A mutant
+   that weakens that test is behaviourally equivalent up to the error message.) *)
+Definition set_logic_no_started_guard (c : cfg) (s : st) : st * res :=
+  if c_fin_lock c && finished s then (s, RErr IllegalState) else
+  if locked s then (s, RErr IllegalState) else
+  let s1 := mkSt (premature s) (finished s) (timed_out s) (trunk s) (started s) true (has_arg s) (locked s) false
+                 (nhand s) (hist s) (c_nrules c) in
+  if has_arg s1 && c_auto c then build_trunk c s1 else (s1, ROk).
+
+Lemma logic_started_guard_redundant c ops : let s := run c ops in
+  set_logic c s = set_logic_no_started_guard c s.
+Proof.
+  intro s. pose proof (Inv_run c ops) as I. fold s in I.
+  unfold set_logic, set_logic_no_started_guard, refuses.
+  destruct (started s) eqn:St.
+  - destruct (i_started _ _ I St) as (_ & L). rewrite L. cbn [orb].
+    destruct (c_fin_lock c && finished s); reflexivity.
+  - cbn [orb]. reflexivity.
+Qed.
 
 (* ---- steps_bounded ------------------------------------------------------------- *)
 Theorem steps_bounded c ops z : c_max_steps c = Some z -> (0 < z)%Z -> (Z.of_nat (hist (run c ops)) <= z)%Z.
@@ -205,9 +350,9 @@ Proof.
   { destruct (timed_out s) eqn:Q; [|reflexivity]. pose proof (i_to _ _ I Q). congruence. }
   unfold finish. rewrite F.
   assert (V : invalid c (set_finished s) = None).
-  { unfold invalid, verdict_ok, completed. simpl. rewrite P. reflexivity. }
-  rewrite V. simpl. repeat split; auto.
-  - unfold valid, verdict_ok, completed; simpl. rewrite P. reflexivity.
+  { apply premature_no_verdict. exact P. }
+  rewrite V. cbn [fst snd]. repeat split; auto.
+  - apply (premature_no_verdict c (set_finished s)). exact P.
 Qed.
 
 (* stopped by the time limit *)
@@ -218,11 +363,11 @@ Lemma time_limit_stops c b2 s : Inv c s -> finished s = false -> has_time_limit 
 Proof.
   intros I F T. unfold step. rewrite F, T. cbn [andb].
   assert (P : premature s = true) by (apply (i_prem _ _ I), F).
-  unfold finish. simpl. rewrite F.
+  unfold finish. cbn [finished set_timed_out]. rewrite F.
   assert (V : invalid c (set_finished (set_timed_out s)) = None).
-  { unfold invalid, verdict_ok, completed. simpl. rewrite P. reflexivity. }
-  rewrite V. simpl. repeat split; auto.
-  unfold valid, verdict_ok, completed; simpl. rewrite P. reflexivity.
+  { apply premature_no_verdict. exact P. }
+  rewrite V. cbn [fst snd]. repeat split; auto.
+  apply (premature_no_verdict c (set_finished (set_timed_out s))). exact P.
 Qed.
 
 (* ---- timeout_finishes -------------------------------------------------------------- *)
@@ -252,7 +397,7 @@ Qed.
 
 Theorem timeout_finishes c s o s' : exec c s o = (s', RErr Timeout) -> finished s' = true /\ timed_out s' = true.
 Proof.
-  destruct o as [b b2|b2|k b2| | | |]; cbn [exec].
+  destruct o as [b b2|b2|k b2| | | | |]; cbn [exec].
   - apply step_timeout.
   - destruct (finish c b2 s) as [s2 t] eqn:Q. destruct t; intro H; inversion H. subst. eapply finish_timeout, Q.
   - apply build_loop_timeout.
@@ -260,6 +405,7 @@ Proof.
   - unfold set_logic, build_trunk. ifs; intro H; inversion H.
   - unfold build_trunk. ifs; intro H; inversion H.
   - unfold add_rule. ifs; intro H; inversion H.
+  - unfold hand_branch. intro H; inversion H.
 Qed.
 
 (* ---- finished_idempotent -------------------------------------------------------------- *)
@@ -293,69 +439,72 @@ Proof. intro L. unfold add_rule. rewrite L. reflexivity. Qed.
 (* once started: stays started, keeps its logic, argument and rule set *)
 Lemma step_keeps c b b2 s : let s' := fst (step c b b2 s) in
   (started s = true -> started s' = true) /\ has_logic s' = has_logic s /\ has_arg s' = has_arg s /\
-  locked s' = locked s /\ added s' = added s /\ nrules s' = nrules s /\ trunk s' = trunk s.
+  locked s' = locked s /\ added s' = added s /\ nrules s' = nrules s /\ trunk s' = trunk s /\ nhand s' = nhand s.
 Proof.
   unfold step. destruct (finished s); [simpl; tauto|].
   destruct (has_time_limit c && b).
   - pose proof (finish_keeps c b2 (set_timed_out s)) as K. cbv zeta in K. cbv zeta.
-    destruct K as (K1 & K2 & K3 & K4 & K5 & K6 & K7 & K8 & K9 & K10 & K11). cbn [fst]. rewrite K2, K3, K4, K5, K6, K7, K10.
-    simpl. tauto.
+    destruct K as (K1 & K2 & K3 & K4 & K5 & K6 & K7 & K8 & K9 & K10 & K11). cbn [fst].
+    rewrite K2, K3, K4, K5, K6, K7, K8, K10. simpl. tauto.
   - destruct (negb (exceeded c s)).
     + destruct (available c s); [simpl; tauto|].
       pose proof (finish_keeps c b2 (clear_premature s)) as K. cbv zeta in K.
       destruct (finish c b2 (clear_premature s)) as [s2 t]. cbn [fst] in *.
-      destruct K as (K1 & K2 & K3 & K4 & K5 & K6 & K7 & K8 & K9 & K10 & K11). rewrite K2, K3, K4, K5, K6, K7, K10.
-      simpl. tauto.
+      destruct K as (K1 & K2 & K3 & K4 & K5 & K6 & K7 & K8 & K9 & K10 & K11).
+      rewrite K2, K3, K4, K5, K6, K7, K8, K10. simpl. tauto.
     + pose proof (finish_keeps c b2 s) as K. cbv zeta in K.
       destruct (finish c b2 s) as [s2 t]. simpl in *.
-      destruct K as (K1 & K2 & K3 & K4 & K5 & K6 & K7 & K8 & K9 & K10 & K11). rewrite K2, K3, K4, K5, K6, K7, K10. tauto.
+      destruct K as (K1 & K2 & K3 & K4 & K5 & K6 & K7 & K8 & K9 & K10 & K11).
+      rewrite K2, K3, K4, K5, K6, K7, K8, K10. tauto.
 Qed.
 
 Lemma build_loop_keeps c fuel : forall i k b2 s, let s' := fst (build_loop c fuel i k b2 s) in
   (started s = true -> started s' = true) /\ has_logic s' = has_logic s /\ has_arg s' = has_arg s /\
-  locked s' = locked s /\ added s' = added s /\ nrules s' = nrules s /\ trunk s' = trunk s.
+  locked s' = locked s /\ added s' = added s /\ nrules s' = nrules s /\ trunk s' = trunk s /\ nhand s' = nhand s.
 Proof.
   induction fuel as [|f IH]; intros i k b2 s; simpl; [tauto|].
   pose proof (step_keeps c (clock k i) b2 s) as K. cbv zeta in K.
   destruct (step c (clock k i) b2 s) as [s1 r]. simpl in K.
-  destruct K as (K1 & K2 & K3 & K4 & K5 & K6 & K7).
+  destruct K as (K1 & K2 & K3 & K4 & K5 & K6 & K7 & K8).
   destruct r; simpl; try tauto.
-  specialize (IH (S i) k b2 s1). cbv zeta in IH. destruct IH as (J1 & J2 & J3 & J4 & J5 & J6 & J7).
-  rewrite J2, J3, J4, J5, J6, J7. tauto.
+  specialize (IH (S i) k b2 s1). cbv zeta in IH. destruct IH as (J1 & J2 & J3 & J4 & J5 & J6 & J7 & J8).
+  rewrite J2, J3, J4, J5, J6, J7, J8. tauto.
 Qed.
 
 Theorem started_frozen c s o : Inv c s -> started s = true -> let s' := fst (exec c s o) in
   started s' = true /\ has_logic s' = has_logic s /\ has_arg s' = has_arg s /\
   locked s' = true /\ added s' = added s /\ nrules s' = nrules s.
 Proof.
-  intros I St. pose proof (i_started _ _ I St) as T. destruct (i_trunk _ _ I T) as (_ & _ & _ & L).
-  destruct o as [b b2|b2|k b2| | | |]; cbn [exec]; cbv zeta.
-  - pose proof (step_keeps c b b2 s) as K. cbv zeta in K. destruct K as (K1 & K2 & K3 & K4 & K5 & K6 & K7).
+  intros I St. destruct (i_started _ _ I St) as (_ & L).
+  destruct o as [b b2|b2|k b2| | | | |]; cbn [exec]; cbv zeta.
+  - pose proof (step_keeps c b b2 s) as K. cbv zeta in K. destruct K as (K1 & K2 & K3 & K4 & K5 & K6 & K7 & K8).
     rewrite K2, K3, K4, K5, K6. repeat split; auto.
   - pose proof (finish_keeps c b2 s) as K. cbv zeta in K. destruct (finish c b2 s) as [s2 t]. simpl in *.
     destruct K as (K1 & K2 & K3 & K4 & K5 & K6 & K7 & K8 & K9 & K10 & K11). rewrite K3, K4, K5, K6, K7, K10. repeat split; auto.
-  - pose proof (build_loop_keeps c (S (c_n c - hist s)) 0 k b2 s) as K. cbv zeta in K.
-    destruct K as (K1 & K2 & K3 & K4 & K5 & K6 & K7). unfold build. rewrite K2, K3, K4, K5, K6. repeat split; auto.
+  - pose proof (build_loop_keeps c (S (supply c s - hist s)) 0 k b2 s) as K. cbv zeta in K.
+    destruct K as (K1 & K2 & K3 & K4 & K5 & K6 & K7 & K8). unfold build. rewrite K2, K3, K4, K5, K6. repeat split; auto.
   - destruct (setters_locked c s St) as (H & _ & _). cbn [exec] in H. rewrite H. simpl. repeat split; auto.
   - destruct (setters_locked c s St) as (_ & H & _). cbn [exec] in H. rewrite H. simpl. repeat split; auto.
   - destruct (setters_locked c s St) as (_ & _ & H). cbn [exec] in H. rewrite H. simpl. repeat split; auto.
   - rewrite (rules_locked s L). simpl. repeat split; auto.
+  - unfold hand_branch. simpl. repeat split; auto.
 Qed.
 
 (* ---- no_argument_no_verdict ---------------------------------------------------------- *)
 Lemma exec_keeps_no_arg c s o : o <> SetArgument -> has_arg s = false -> has_arg (fst (exec c s o)) = false.
 Proof.
-  intros N A. destruct o as [b b2|b2|k b2| | | |]; cbn [exec].
+  intros N A. destruct o as [b b2|b2|k b2| | | | |]; cbn [exec].
   - pose proof (step_keeps c b b2 s) as K. cbv zeta in K. destruct K as (_ & _ & K & _). congruence.
   - pose proof (finish_keeps c b2 s) as K. cbv zeta in K. destruct (finish c b2 s) as [s2 t]. cbn [fst] in *.
     destruct K as (_ & _ & _ & _ & K & _). congruence.
-  - pose proof (build_loop_keeps c (S (c_n c - hist s)) 0 k b2 s) as K. cbv zeta in K.
+  - pose proof (build_loop_keeps c (S (supply c s - hist s)) 0 k b2 s) as K. cbv zeta in K.
     destruct K as (_ & _ & K & _). unfold build. congruence.
   - congruence.
   - unfold set_logic. destruct (refuses c s); [exact A|]. destruct (locked s); [exact A|].
     simpl. rewrite A. simpl. first [reflexivity | exact A].
   - unfold build_trunk. destruct (trunk s); [exact A|]. rewrite A. simpl. first [reflexivity | exact A].
   - unfold add_rule. destruct (locked s); [exact A|]. destruct (added s); simpl; first [reflexivity | exact A].
+  - unfold hand_branch. simpl. exact A.
 Qed.
 
 Theorem no_argument_no_verdict c ops : ~ In SetArgument ops ->
@@ -371,41 +520,66 @@ Qed.
 
 (* ---- big_limit_noop ------------------------------------------------------------------ *)
 Definition same_but_limit (c c' : cfg) : Prop :=
-  c_n c = c_n c' /\ c_closes c = c_closes c' /\ c_nrules c = c_nrules c' /\ c_auto c = c_auto c' /\
+  c_n c = c_n c' /\ c_closes c = c_closes c' /\ c_h c = c_h c' /\ c_nrules c = c_nrules c' /\ c_auto c = c_auto c' /\
   c_models c = c_models c' /\ c_timeout c = c_timeout c' /\ c_fin_lock c = c_fin_lock c' /\
   c_trunk_verdict c = c_trunk_verdict c'.
 
-Lemma finish_ext c c' b2 s : c_models c = c_models c' -> c_timeout c = c_timeout c' ->
-  c_trunk_verdict c = c_trunk_verdict c' -> finish c b2 s = finish c' b2 s.
-Proof. intros M T V. unfold finish, has_time_limit, invalid, verdict_ok. rewrite M, T, V. reflexivity. Qed.
+Lemma supply_ext c c' s : same_but_limit c c' -> supply c s = supply c' s.
+Proof. intros (N & C & H & _). unfold supply. rewrite N, H. reflexivity. Qed.
+
+Lemma finish_ext c c' b2 s : same_but_limit c c' -> finish c b2 s = finish c' b2 s.
+Proof.
+  intros (N & C & H & R & A & M & T & FL & TV).
+  assert (O : forall x, open_zero c x = open_zero c' x) by (intro x; unfold open_zero; rewrite N, C; reflexivity).
+  assert (I : forall x, invalid c x = invalid c' x) by (intro x; unfold invalid, verdict_ok; rewrite TV, O; reflexivity).
+  unfold finish, has_time_limit. rewrite I, M, T. reflexivity.
+Qed.
 
 Lemma step_ext c c' b b2 s : same_but_limit c c' -> exceeded c s = exceeded c' s -> step c b b2 s = step c' b b2 s.
 Proof.
-  intros (N & C & R & A & M & T & FL & TV) X. unfold step.
-  rewrite !(finish_ext c c' b2) by assumption. unfold has_time_limit, available, apply_rule.
-  rewrite N, C, T, X. reflexivity.
+  intros Sm X. pose proof Sm as (N & C & H & R & A & M & T & FL & TV).
+  assert (Av : available c s = available c' s) by (unfold available; rewrite (supply_ext c c' s Sm); reflexivity).
+  assert (TL : has_time_limit c = has_time_limit c') by (unfold has_time_limit; rewrite T; reflexivity).
+  unfold step. rewrite Av, TL, X, !(finish_ext c c' b2 _ Sm). reflexivity.
 Qed.
 
-Lemma build_loop_ext c c' : same_but_limit c c' -> (forall s, Inv c s -> exceeded c s = exceeded c' s) ->
-  forall fuel i k b2 s, Inv c s -> build_loop c fuel i k b2 s = build_loop c' fuel i k b2 s.
+Lemma step_supply c b b2 s : supply c (fst (step c b b2 s)) = supply c s.
 Proof.
-  intros Sm X. induction fuel as [|f IH]; intros i k b2 s I; simpl; [reflexivity|].
-  rewrite <- (step_ext c c' _ _ _ Sm (X s I)).
-  pose proof (Inv_step c (clock k i) b2 s I) as J.
-  destruct (step c (clock k i) b2 s) as [s' r]. simpl in J. destruct r; try reflexivity. apply IH, J.
+  pose proof (step_keeps c b b2 s) as K. cbv zeta in K. destruct K as (_ & K2 & _ & _ & _ & _ & K7 & K8).
+  apply supply_eq; assumption.
 Qed.
 
-Lemma exec_ext c c' : same_but_limit c c' -> (forall s, Inv c s -> exceeded c s = exceeded c' s) ->
-  forall s o, Inv c s -> exec c s o = exec c' s o.
+Lemma build_loop_supply c fuel : forall i k b2 s, supply c (fst (build_loop c fuel i k b2 s)) = supply c s.
 Proof.
-  intros Sm X s o I. pose proof Sm as (N & C & R & A & M & T & FL & TV).
-  destruct o as [b b2|b2|k b2| | | |]; cbn [exec].
-  - apply step_ext; auto.
-  - rewrite (finish_ext c c' b2 s M T TV). reflexivity.
-  - unfold build. rewrite N. apply build_loop_ext; auto.
+  intros i k b2 s. pose proof (build_loop_keeps c fuel i k b2 s) as K. cbv zeta in K.
+  destruct K as (_ & K2 & _ & _ & _ & _ & K7 & K8). apply supply_eq; assumption.
+Qed.
+
+(* the two configurations agree on `exceeded` in every state with n rule applications to make *)
+Lemma build_loop_ext c c' n : same_but_limit c c' ->
+  (forall s, Inv c s -> supply c s = n -> exceeded c s = exceeded c' s) ->
+  forall fuel i k b2 s, Inv c s -> supply c s = n -> build_loop c fuel i k b2 s = build_loop c' fuel i k b2 s.
+Proof.
+  intros Sm X. induction fuel as [|f IH]; intros i k b2 s I E; simpl; [reflexivity|].
+  rewrite <- (step_ext c c' _ _ _ Sm (X s I E)).
+  pose proof (Inv_step c (clock k i) b2 s I) as J. pose proof (step_supply c (clock k i) b2 s) as SS.
+  destruct (step c (clock k i) b2 s) as [s' r]. simpl in J, SS. destruct r; try reflexivity.
+  apply IH; [exact J|congruence].
+Qed.
+
+Lemma exec_ext c c' s : same_but_limit c c' ->
+  (forall s', Inv c s' -> supply c s' = supply c s -> exceeded c s' = exceeded c' s') ->
+  forall o, Inv c s -> exec c s o = exec c' s o.
+Proof.
+  intros Sm X o I. pose proof Sm as (N & C & H & R & A & M & T & FL & TV).
+  destruct o as [b b2|b2|k b2| | | | |]; cbn [exec].
+  - apply step_ext; [exact Sm|]. apply X; [exact I|reflexivity].
+  - rewrite (finish_ext c c' b2 s Sm). reflexivity.
+  - unfold build. rewrite <- (supply_ext c c' s Sm). apply (build_loop_ext c c' (supply c s)); auto.
   - unfold set_argument, build_trunk, refuses. rewrite A, FL. reflexivity.
   - unfold set_logic, build_trunk, refuses. rewrite A, R, FL. reflexivity.
   - unfold build_trunk, refuses. rewrite FL. reflexivity.
+  - reflexivity.
   - reflexivity.
 Qed.
 
@@ -413,15 +587,19 @@ Lemma trace_ext c c' : same_but_limit c c' -> (forall s, Inv c s -> exceeded c s
   forall ops s, Inv c s -> trace c s ops = trace c' s ops.
 Proof.
   intros Sm X. induction ops as [|o r IH]; intros s I; simpl; [reflexivity|].
-  rewrite <- (exec_ext c c' Sm X s o I). pose proof (Inv_exec c s o I) as J.
+  rewrite <- (exec_ext c c' s Sm (fun s' I' _ => X s' I') o I). pose proof (Inv_exec c s o I) as J.
   destruct (exec c s o) as [s' x]. simpl in J. rewrite (IH s' J). reflexivity.
 Qed.
 
 Definition with_limit (c : cfg) (m : option Z) : cfg :=
-  mkCfg (c_n c) (c_closes c) (c_nrules c) (c_auto c) (c_models c) m (c_timeout c) (c_fin_lock c) (c_trunk_verdict c).
+  mkCfg (c_n c) (c_closes c) (c_h c) (c_nrules c) (c_auto c) (c_models c) m (c_timeout c) (c_fin_lock c)
+        (c_trunk_verdict c).
 
 Lemma same_with_limit c m m' : same_but_limit (with_limit c m) (with_limit c m').
 Proof. unfold same_but_limit; simpl; tauto. Qed.
+
+Lemma supply_with_limit c m s : supply (with_limit c m) s = supply c s.
+Proof. reflexivity. Qed.
 
 Lemma exceeded_none c s : exceeded (with_limit c None) s = false.
 Proof. reflexivity. Qed.
@@ -432,16 +610,127 @@ Proof.
   assert (E : (0 <? z)%Z = false) by (apply Z.ltb_ge; exact H). rewrite E. reflexivity.
 Qed.
 
-(* a limit above the natural length changes nothing, for every operation sequence *)
-Theorem big_limit_noop c L ops : (Z.of_nat (c_n c) < L)%Z ->
-  trace (with_limit c (Some L)) init ops = trace (with_limit c None) init ops.
+Lemma exceeded_big c L s : (Z.of_nat (hist s) < L)%Z -> exceeded (with_limit c (Some L)) s = false.
 Proof.
-  intro H. apply trace_ext; [apply same_with_limit| |apply Inv_init].
-  intros s I. rewrite exceeded_none. unfold exceeded, has_step_limit, positive. simpl.
-  pose proof (i_hist _ _ I) as B. simpl in B.
-  assert (E : (L <=? Z.of_nat (hist s))%Z = false) by (apply Z.leb_gt; lia).
+  intro H. unfold exceeded, has_step_limit, positive. simpl.
+  assert (E : (L <=? Z.of_nat (hist s))%Z = false) by (apply Z.leb_gt; exact H).
   rewrite E. apply andb_false_r.
 Qed.
+
+(* the supply only grows along a run: the natural length of the proof a run builds *)
+Lemma supply_build_trunk c s : supply c s <= supply c (fst (build_trunk c s)).
+Proof.
+  unfold build_trunk.
+  destruct (trunk s) eqn:T; [cbn [fst]; lia|].
+  destruct (negb (has_arg s)); [cbn [fst]; lia|].
+  destruct (negb (has_logic s)); [cbn [fst]; lia|].
+  destruct (refuses c s); [cbn [fst]; lia|]. cbn [fst].
+  change (supply c (do_trunk s)) with (c_n c + (if has_logic s then c_h c * nhand s else 0)).
+  unfold supply. rewrite T. lia.
+Qed.
+
+Lemma supply_mono_exec c s o : supply c s <= supply c (fst (exec c s o)).
+Proof.
+  destruct o as [b b2|b2|k b2| | | | |]; cbn [exec].
+  - rewrite step_supply. lia.
+  - pose proof (finish_keeps c b2 s) as K. cbv zeta in K. destruct (finish c b2 s) as [s2 t]. cbn [fst] in *.
+    destruct K as (_ & K2 & _ & K4 & _ & _ & _ & K8 & _).
+    rewrite (supply_eq c s2 s K2 K4 K8). lia.
+  - unfold build. rewrite build_loop_supply. lia.
+  - unfold set_argument. destruct (refuses c s); [cbn [fst]; lia|]. cbv zeta.
+    match goal with |- context [build_trunk c ?x] => set (s1 := x) end.
+    assert (E : supply c s1 = supply c s) by reflexivity.
+    destruct (has_logic s1 && c_auto c); [|cbn [fst]; lia].
+    pose proof (supply_build_trunk c s1). lia.
+  - unfold set_logic. destruct (refuses c s); [cbn [fst]; lia|]. destruct (locked s); [cbn [fst]; lia|]. cbv zeta.
+    match goal with |- context [build_trunk c ?x] => set (s1 := x) end.
+    assert (E : supply c s <= supply c s1).
+    { change (supply c s1) with ((if trunk s then c_n c else 0) + c_h c * nhand s).
+      unfold supply. destruct (has_logic s); lia. }
+    destruct (has_arg s1 && c_auto c); [|cbn [fst]; lia].
+    pose proof (supply_build_trunk c s1). lia.
+  - apply supply_build_trunk.
+  - unfold add_rule. destruct (locked s); [cbn [fst]; lia|]. destruct (added s); [cbn [fst]; lia|]. cbn [fst].
+    match goal with |- _ <= supply c ?x => change (supply c x) with (supply c s) end. lia.
+  - apply supply_hand_branch.
+Qed.
+
+Lemma supply_mono_fold c ops : forall s, supply c s <= supply c (fold_left (fun s o => fst (exec c s o)) ops s).
+Proof.
+  induction ops as [|o r IH]; intros s; cbn [fold_left]; [lia|].
+  pose proof (supply_mono_exec c s o). pose proof (IH (fst (exec c s o))). lia.
+Qed.
+
+Lemma big_limit_gen c L : forall ops s, Inv (with_limit c (Some L)) s ->
+  (Z.of_nat (supply c (fold_left (fun s o => fst (exec (with_limit c None) s o)) ops s)) < L)%Z ->
+  trace (with_limit c (Some L)) s ops = trace (with_limit c None) s ops.
+Proof.
+  induction ops as [|o r IH]; intros s I B; cbn [trace]; [reflexivity|].
+  assert (E : exec (with_limit c (Some L)) s o = exec (with_limit c None) s o).
+  { apply exec_ext; [apply same_with_limit| |exact I].
+    intros s' I' S'. rewrite exceeded_none. apply exceeded_big.
+    pose proof (i_hist _ _ I') as Hh. rewrite S' in Hh. rewrite supply_with_limit in Hh.
+    pose proof (supply_mono_fold (with_limit c None) (o :: r) s) as Mo. rewrite !supply_with_limit in Mo. lia. }
+  cbn [fold_left] in B. rewrite <- E in B. rewrite <- E.
+  pose proof (Inv_exec _ s o I) as J.
+  destruct (exec (with_limit c (Some L)) s o) as [s' x]. cbn [fst] in J, B.
+  rewrite (IH s' J B). reflexivity.
+Qed.
+
+(* a limit above the natural length of the proof that the (unlimited) run builds — c_n once its
+   trunk is built plus c_h per usable hand-made branch — changes nothing, for every operation
+   sequence *)
+Theorem big_limit_noop_run c L ops : (Z.of_nat (supply c (run (with_limit c None) ops)) < L)%Z ->
+  trace (with_limit c (Some L)) init ops = trace (with_limit c None) init ops.
+Proof. intro H. apply big_limit_gen; [apply Inv_init|]. exact H. Qed.
+
+Definition is_hand (o : op) : nat := match o with HandBranch => 1 | _ => 0 end.
+Fixpoint count_hand (ops : list op) : nat :=
+  match ops with [] => 0 | o :: r => is_hand o + count_hand r end.
+
+Lemma nhand_exec c s o : nhand (fst (exec c s o)) = nhand s + is_hand o.
+Proof.
+  destruct o as [b b2|b2|k b2| | | | |]; cbn [exec is_hand].
+  - pose proof (step_keeps c b b2 s) as K. cbv zeta in K. destruct K as (_ & _ & _ & _ & _ & _ & _ & K8). lia.
+  - pose proof (finish_keeps c b2 s) as K. cbv zeta in K. destruct (finish c b2 s) as [s2 t]. cbn [fst] in *.
+    destruct K as (_ & _ & _ & _ & _ & _ & _ & K8 & _). lia.
+  - pose proof (build_loop_keeps c (S (supply c s - hist s)) 0 k b2 s) as K. cbv zeta in K. unfold build.
+    destruct K as (_ & _ & _ & _ & _ & _ & _ & K8). lia.
+  - unfold set_argument, build_trunk. cbv zeta. ifs; simpl; lia.
+  - unfold set_logic, build_trunk. cbv zeta. ifs; simpl; lia.
+  - unfold build_trunk. ifs; simpl; lia.
+  - unfold add_rule. ifs; simpl; lia.
+  - simpl. lia.
+Qed.
+
+Lemma nhand_fold c ops : forall s, nhand (fold_left (fun s o => fst (exec c s o)) ops s) = nhand s + count_hand ops.
+Proof.
+  induction ops as [|o r IH]; intros s; cbn [fold_left count_hand]; [lia|].
+  rewrite IH, nhand_exec. lia.
+Qed.
+
+(* ... in particular a limit above c_n + c_h * (number of HandBranch operations) *)
+Theorem big_limit_noop c L ops : (Z.of_nat (c_n c + c_h c * count_hand ops) < L)%Z ->
+  trace (with_limit c (Some L)) init ops = trace (with_limit c None) init ops.
+Proof.
+  intro H. apply big_limit_noop_run.
+  pose proof (supply_le c (run (with_limit c None) ops)) as S1.
+  assert (N : nhand (run (with_limit c None) ops) = count_hand ops).
+  { unfold run. rewrite nhand_fold. reflexivity. }
+  rewrite N in S1. lia.
+Qed.
+
+Lemma count_hand_0 ops : ~ In HandBranch ops -> count_hand ops = 0.
+Proof.
+  induction ops as [|o r IH]; intro N; cbn [count_hand]; [reflexivity|].
+  rewrite IH by (intro H; apply N; right; exact H).
+  destruct o; cbn [is_hand]; try reflexivity. exfalso. apply N. left. reflexivity.
+Qed.
+
+(* ... and without hand-made branches a limit above the trunk's natural length *)
+Theorem big_limit_noop_no_hand c L ops : ~ In HandBranch ops -> (Z.of_nat (c_n c) < L)%Z ->
+  trace (with_limit c (Some L)) init ops = trace (with_limit c None) init ops.
+Proof. intros N H. apply big_limit_noop. rewrite (count_hand_0 ops N). lia. Qed.
 
 (* None, 0 and negative limits are all "unlimited" *)
 Theorem nonpositive_limit_unlimited c z ops : (z <= 0)%Z ->
@@ -469,14 +758,16 @@ Fixpoint step_seq (c : cfg) (k : option nat) (b2 : bool) (i m : nat) (s : st) : 
 
 Definition build_res (r : res) : res := match r with RNone => ROk | _ => r end.
 
-Lemma step_entry c b b2 s s' : step c b b2 s = (s', REntry) -> hist s' = S (hist s) /\ hist s < c_n c.
+Lemma step_entry c b b2 s s' : step c b b2 s = (s', REntry) ->
+  hist s' = S (hist s) /\ hist s < supply c s /\ supply c s' = supply c s.
 Proof.
-  unfold step. destruct (finished s); [intro H; inversion H|].
+  intro Q. pose proof (step_supply c b b2 s) as SS. rewrite Q in SS. cbn [fst] in SS.
+  revert Q. unfold step. destruct (finished s); [intro H; inversion H|].
   destruct (has_time_limit c && b); [intro H; inversion H|].
   destruct (negb (exceeded c s)).
   - destruct (available c s) eqn:A.
-    + intro H. inversion H. simpl. split; [reflexivity|].
-      unfold available in A. apply andb_true_iff in A. destruct A as [_ A]. apply Nat.ltb_lt in A. exact A.
+    + intro H. inversion H. subst. cbn [hist apply_rule]. split; [reflexivity|]. split; [|exact SS].
+      unfold available in A. apply Nat.ltb_lt in A. exact A.
     + destruct (finish c b2 (clear_premature s)) as [s2 t]. destruct t; intro H; inversion H.
   - destruct (finish c b2 s) as [s2 t]. destruct t; intro H; inversion H.
 Qed.
@@ -491,8 +782,8 @@ Proof.
   - destruct (finish c b2 s) as [s2 t]. destruct t; simpl; split; discriminate.
 Qed.
 
-Lemma build_loop_is_steps c k b2 : forall fuel i s, c_n c - hist s < fuel ->
-  exists m, m <= c_n c - hist s /\
+Lemma build_loop_is_steps c k b2 : forall fuel i s, supply c s - hist s < fuel ->
+  exists m, m <= supply c s - hist s /\
     Forall (fun r => r = REntry) (snd (step_seq c k b2 i m s)) /\
     let p := step c (clock k (i + m)) b2 (fst (step_seq c k b2 i m s)) in
     snd p <> REntry /\ build_loop c fuel i k b2 s = (fst p, build_res (snd p)).
@@ -501,7 +792,7 @@ Proof.
   simpl. destruct (step c (clock k i) b2 s) as [s' r] eqn:Q.
   destruct r.
   - exists 0. simpl. rewrite Nat.add_0_r, Q. simpl. repeat split; [lia|constructor|discriminate].
-  - destruct (step_entry _ _ _ _ _ Q) as [H1 H2].
+  - destruct (step_entry _ _ _ _ _ Q) as (H1 & H2 & H3).
     destruct (IH (S i) s') as (m & Lm & Fm & P); [lia|].
     exists (S m). split; [lia|]. simpl. rewrite Q. simpl. split; [constructor; [reflexivity|exact Fm]|].
     cbv zeta in P. rewrite <- Nat.add_succ_comm. exact P.
@@ -512,11 +803,11 @@ Qed.
 
 (* build() is exactly: call step() until it returns no entry; same final state, same exception *)
 Theorem build_is_step_loop c k b2 s :
-  exists m, m <= c_n c - hist s /\
+  exists m, m <= supply c s - hist s /\
     Forall (fun r => r = REntry) (snd (step_seq c k b2 0 m s)) /\
     let p := step c (clock k m) b2 (fst (step_seq c k b2 0 m s)) in
     snd p <> REntry /\ build c k b2 s = (fst p, build_res (snd p)).
-Proof. unfold build. apply (build_loop_is_steps c k b2 (S (c_n c - hist s)) 0 s). lia. Qed.
+Proof. unfold build. apply (build_loop_is_steps c k b2 (S (supply c s - hist s)) 0 s). lia. Qed.
 
 Theorem build_total c k b2 s : snd (build c k b2 s) <> RFuel.
 Proof.
@@ -526,14 +817,14 @@ Proof.
 Qed.
 
 (* ---- non-vacuity and observations ------------------------------------------------------- *)
-Definition ex_cfg (m : option Z) (t : option Z) : cfg := mkCfg 4 true 20 true false m t false false.
+Definition ex_cfg (m : option Z) (t : option Z) : cfg := mkCfg 4 true 1 20 true false m t false false.
 
 Example ex_limit_cut : observe (ex_cfg (Some 2%Z) None) ROk (run (ex_cfg (Some 2%Z) None) [SetLogic; SetArgument; Build None false]) =
-  (ROk, (true, true, false, true, true), (None, None), (true, 2, 20)).
+  (ROk, (true, true, false, true, true), (None, None), (true, 2, 20), false).
 Proof. vm_compute. reflexivity. Qed.
 
 Example ex_complete : observe (ex_cfg (Some 5%Z) None) ROk (run (ex_cfg (Some 5%Z) None) [SetLogic; SetArgument; Build None false]) =
-  (ROk, (false, true, false, true, true), (Some true, Some false), (true, 4, 20)).
+  (ROk, (false, true, false, true, true), (Some true, Some false), (true, 4, 20), true).
 Proof. vm_compute. reflexivity. Qed.
 
 Example ex_limit_equal_n_is_premature :
@@ -541,22 +832,48 @@ Example ex_limit_equal_n_is_premature :
 Proof. vm_compute. reflexivity. Qed.
 
 Example ex_timeout : trace (ex_cfg None (Some 1000%Z)) init [SetLogic; SetArgument; Step false false; Step true false; Step false false] =
-  let s1 := mkSt true false false false false true false false false true 0 20 in
-  let s2 := mkSt true false false true true true true true false false 0 20 in
-  let s3 := mkSt true false false true true true true true false false 1 20 in
-  let s4 := mkSt true true true true true true true true false false 1 20 in
+  let s1 := mkSt true false false false false true false false false 0 0 20 in
+  let s2 := mkSt true false false true true true true true false 0 0 20 in
+  let s3 := mkSt true false false true true true true true false 0 1 20 in
+  let s4 := mkSt true true true true true true true true false 0 1 20 in
   [(ROk, s1); (ROk, s2); (REntry, s3); (RErr Timeout, s4); (RNone, s4)].
 Proof. vm_compute. reflexivity. Qed.
 
 (* a timeout raised while the models of a completed invalid tableau are generated: the tableau is
    finished, flagged TIMED_OUT, but completed, so it keeps its verdict *)
 Example ex_timeout_in_models :
-  let c := mkCfg 1 false 20 true true None (Some 1000%Z) false false in
+  let c := mkCfg 1 false 1 20 true true None (Some 1000%Z) false false in
   let p := trace c init [SetLogic; SetArgument; Build None true] in
   map fst p = [ROk; ROk; RErr Timeout] /\
   (let s := run c [SetLogic; SetArgument; Build None true] in
    finished s = true /\ timed_out s = true /\ premature s = false /\ invalid c s = Some true).
-Proof. vm_compute. auto. Qed.
+Proof. vm_compute. repeat (split; [reflexivity|]). reflexivity. Qed.
+
+(* a tableau started by hand: STARTED without TRUNK_BUILT, and it refuses an argument *)
+Example ex_hand_started :
+  let c := ex_cfg None None in let s := run c [SetLogic; HandBranch; Step false false] in
+  started s = true /\ trunk s = false /\ has_arg s = false /\ hist s = 1 /\ finished s = false /\
+  exec c s SetArgument = (s, RErr IllegalState).
+Proof. vm_compute. repeat (split; [reflexivity|]). reflexivity. Qed.
+
+(* a hand-made branch before the logic: the rule set is locked, the logic can never be set *)
+Example ex_hand_before_logic :
+  let c := ex_cfg None None in
+  map fst (trace c init [HandBranch; SetLogic; SetArgument; Step false false; SetLogic]) =
+    [ROk; RErr IllegalState; ROk; RNone; RErr IllegalState] /\
+  has_logic (run c [HandBranch; SetLogic; SetArgument; Step false false; SetLogic]) = false.
+Proof. vm_compute. repeat (split; [reflexivity|]). reflexivity. Qed.
+
+(* trunk after a hand-made branch (allowed: not started), two branches' worth of steps, limit 3 of 5 *)
+Example ex_hand_then_trunk :
+  let c := ex_cfg (Some 3%Z) None in let s := run c [SetLogic; HandBranch; SetArgument; Build None false] in
+  trunk s = true /\ hist s = 3 /\ supply c s = 5 /\ is_premature s = true /\ valid c s = None.
+Proof. vm_compute. repeat (split; [reflexivity|]). reflexivity. Qed.
+
+Example ex_hand_keeps_open :
+  let c := ex_cfg None None in let s := run c [SetLogic; HandBranch; SetArgument; Build None false] in
+  hist s = 5 /\ completed s = true /\ valid c s = Some false /\ invalid c s = Some true.
+Proof. vm_compute. repeat (split; [reflexivity|]). reflexivity. Qed.
 
 (* Observations about states the property text does not speak about (API misuse).  A natural
    strengthening "a verdict needs a built trunk" is false of the code: *)
@@ -564,12 +881,28 @@ Lemma verdict_needs_trunk_refuted :
   exists c ops, let s := run c ops in trunk s = false /\ has_logic s = false /\ valid c s = Some true.
 Proof. exists (ex_cfg None None), [SetArgument; Build None false]. vm_compute. auto. Qed.
 
+(* ... also for a tableau started by hand whose trunk can no longer be built *)
+Lemma hand_started_verdict_without_trunk :
+  exists c ops, let s := run c ops in
+    started s = true /\ trunk s = false /\ snd (exec c s BuildTrunk) = RErr IllegalState /\ invalid c s = Some true.
+Proof.
+  exists (mkCfg 4 true 1 20 false false None None false false),
+         [SetLogic; SetArgument; HandBranch; Step false false; Build None false].
+  vm_compute. repeat (split; [reflexivity|]). reflexivity.
+Qed.
+
 (* ... and "a finished tableau is locked" is false too: a tableau finished before it started
    accepts an argument afterwards, builds a trunk and reports `invalid` with an empty history *)
 Lemma finished_locked_refuted :
   exists c ops, let s := run c ops in let '(s', r) := exec c s SetArgument in
     finished s = true /\ r = ROk /\ trunk s' = true /\ hist s' = 0 /\ invalid c s' = Some true.
 Proof. exists (ex_cfg None None), [SetLogic; Build None false]. vm_compute. auto. Qed.
+
+(* ... and Tableau.branch() is not guarded at all: on a finished, valid tableau it flips the verdict *)
+Lemma hand_branch_flips_verdict :
+  exists c ops, valid c (run c ops) = Some true /\ finished (run c ops) = true /\
+    valid c (run c (ops ++ [HandBranch])) = Some false /\ invalid c (run c (ops ++ [HandBranch])) = Some true.
+Proof. exists (ex_cfg None None), [SetLogic; SetArgument; Build None false]. vm_compute. auto. Qed.
 
 (* ... while for a tree whose probed behaviour flags are set both strengthenings hold *)
 Lemma verdict_needs_trunk c s : c_trunk_verdict c = true -> trunk s = false ->
@@ -589,15 +922,29 @@ Qed.
 Example ex_exceeded_unfinished :
   let c := ex_cfg (Some 2%Z) None in let s := run c [SetLogic; SetArgument; Step false false; Step false false] in
   finished s = false /\ exceeded c s = true /\ hist s = 2.
-Proof. vm_compute. auto. Qed.
+Proof. vm_compute. repeat (split; [reflexivity|]). reflexivity. Qed.
+
+Example ex_exceeded_unfinished_hand :
+  let c := ex_cfg (Some 1%Z) None in let s := run c [SetLogic; HandBranch; HandBranch; Step false false] in
+  finished s = false /\ exceeded c s = true /\ hist s = 1 /\ trunk s = false.
+Proof. vm_compute. repeat (split; [reflexivity|]). reflexivity. Qed.
 
 Example ex_time_limit_unfinished :
   let c := ex_cfg None (Some 5%Z) in let s := run c [SetLogic; SetArgument; Step false false] in
   finished s = false /\ has_time_limit c = true.
-Proof. vm_compute. auto. Qed.
+Proof. vm_compute. repeat (split; [reflexivity|]). reflexivity. Qed.
 
 Example ex_started : started (run (ex_cfg None None) [SetArgument; AddRule; SetLogic]) = true.
 Proof. vm_compute. reflexivity. Qed.
 
 Example ex_big_limit : (Z.of_nat (c_n (ex_cfg None None)) < 5)%Z.
 Proof. vm_compute. reflexivity. Qed.
+
+(* the bound of big_limit_noop_run is sharp: with the limit equal to the run's natural length the
+   tableau ends premature instead of completed *)
+Example ex_big_limit_sharp :
+  let c := ex_cfg None None in let ops := [SetLogic; HandBranch; SetArgument; HandBranch; Build None false] in
+  supply c (run (with_limit c None) ops) = 6 /\
+  is_premature (run (with_limit c (Some 6%Z)) ops) = true /\ completed (run (with_limit c None) ops) = true /\
+  trace (with_limit c (Some 7%Z)) init ops = trace (with_limit c None) init ops.
+Proof. vm_compute. repeat (split; [reflexivity|]). reflexivity. Qed.
